@@ -31,10 +31,10 @@ def plan(tier, ctx):
     j += cfg('join', [J])
     j += cfg('detach', [D])
     if tier == 'thorough':
-        j += cfg('join_noresult', [N], timeout=3000, required=False)
-        j += cfg('tryjoin', [Y], timeout=3000, required=False)
-        j += cfg('join_detach', [J, D], timeout=3000, required=False)
-        j += cfg('join_join', [J, J], timeout=3000, required=False)
-        j += cfg('join_tryjoin', [J, Y], timeout=3000, required=False)
-        j += cfg('tryjoin_detach', [Y, D], timeout=3000, required=False)
+        j += cfg('join_noresult', [N], timeout=1500, required=False)
+        j += cfg('tryjoin', [Y], timeout=1500, required=False)
+        j += cfg('join_detach', [J, D], timeout=1500, required=False)
+        j += cfg('join_join', [J, J], timeout=1500, required=False)
+        j += cfg('join_tryjoin', [J, Y], timeout=1500, required=False)
+        j += cfg('tryjoin_detach', [Y, D], timeout=1500, required=False)
     return j
